@@ -21,7 +21,8 @@ RULE = ("a case = (entry point, protocol phase, adversarial byte string the simu
         "fields 0/65535, truncations, several packets per segment, random bytes. Allowed outcomes: LAN.send -> frames | ProtocolError | "
         "TimeoutError; LAN.authenticate -> return | ProtocolError | TimeoutError; Device.authenticate -> return | AuthenticationError; "
         "Device._send_command / AirConditioner.refresh / apply / get_capabilities / toggle_display (also when the V3 handshake happens implicitly inside them after a reconnect) -> return only. distinct = (entry point, phase, bytes); non-trivial = all")
-ASSUMPTIONS = ["the peer controls bytes only (host names, key lengths and other caller inputs are not mutated)",
+ASSUMPTIONS = ["one item in four runs with max_connection_lifetime set to 1, 3 or 5 s, so that the lifetime elapses while the exchange is still waiting for the peer",
+               "the peer controls bytes only (host names, key lengths and other caller inputs are not mutated)",
                "exceptions raised inside data_received are recorded (evidence) but only judged through what escapes the entry point"]
 ANCHORS = ["lan.py:_Packet.decode", "lan.py:_LanProtocolV3._process_packet", "lan.py:_LanProtocolV3._decode_encrypted_response",
            "lan.py:LAN.send", "lan.py:LAN.authenticate", "base_device.py:Device._send_command", "base_device.py:Device.authenticate"]
@@ -36,9 +37,9 @@ NONCE = bytes(range(100, 132))
 SKEY = v3.session_key(KEY, NONCE)
 BATCH = 48
 
-V2_DRIVERS = ["v2/lan.send", "v2/refresh", "v2/_send_command", "v2/apply", "v2/caps", "v2/toggle"]
+V2_DRIVERS = ["v2/lan.send", "v2/refresh", "v2/_send_command", "v2/apply", "v2/caps", "v2/toggle", "v2/lan.send-twice-id0", "v2/lan.send-retries1"]
 V3_PRE_DRIVERS = ["v3hs/lan.authenticate", "v3hs/dev.authenticate", "v3pre/unsolicited", "v3hs/send-implicit-auth",
-                  "v3hs/refresh-implicit-auth", "v3hs/apply-implicit-auth"]
+                  "v3hs/refresh-implicit-auth", "v3hs/apply-implicit-auth", "v3hs/lan.authenticate-retries1", "v3hs/lan.authenticate-retries2"]
 V3_DATA_DRIVERS = ["v3data/lan.send", "v3data/refresh", "v3data/apply", "v3data/caps"]
 
 
@@ -91,7 +92,9 @@ def generate(ctx, rng):
         k += 1
         # the peer may also close (FIN) or reset the connection right after its bytes, while the caller is waiting
         then = None if k % 6 else ("fin" if k % 12 else "rst")
-        g.append({"label": label + ("+" + then if then else ""), "bytes": b, "then": then})
+        # configuration: a maximum connection lifetime short enough to elapse while an exchange is still waiting
+        life = [1, 3, 5][k % 3] if k % 4 == 1 else None
+        g.append({"label": label + ("+" + then if then else ""), "bytes": b, "then": then, "lifetime": life})
         if len(g) == BATCH:
             yield ("b", n), {"driver": driver, "items": g}
             n += 1
@@ -102,16 +105,17 @@ def generate(ctx, rng):
             n += 1
     # nothing but a close / reset in place of the reply, in every phase and at every entry point
     for driver in V2_DRIVERS + V3_PRE_DRIVERS + V3_DATA_DRIVERS:
-        yield ("close", driver), {"driver": driver, "items": [{"label": "close-only+" + t, "bytes": b"", "then": t} for t in ("fin", "rst")] +
+        yield ("close", driver), {"driver": driver, "items": [{"label": "silent", "bytes": b"", "then": None, "lifetime": lt} for lt in (None, 1, 3, 5)] +
+                                  [{"label": "close-only+" + t, "bytes": b"", "then": t} for t in ("fin", "rst")] +
                                   [{"label": "partial+" + t, "bytes": bb, "then": t} for t in ("fin", "rst")
                                    for bb in (b"\x83\x70\x00\x40\x20", b"\x5a\x5a\x01\x11\x68\x00", b"\x83")]}
 
 
 def _allowed(driver: str):
     ep = driver.split("/")[1]
-    if ep in ("lan.send", "send-implicit-auth"):
+    if ep in ("lan.send", "send-implicit-auth", "lan.send-twice-id0", "lan.send-retries1"):
         return (ProtocolError, TimeoutError), True
-    if ep in ("lan.authenticate", "unsolicited"):
+    if ep in ("lan.authenticate", "unsolicited", "lan.authenticate-retries1", "lan.authenticate-retries2"):
         return (ProtocolError, TimeoutError), True
     if ep == "dev.authenticate":
         return (AuthenticationError,), True
@@ -123,7 +127,7 @@ def run_case(ctx, case):
     phase, ep = driver.split("/")
     version = 2 if phase == "v2" else 3
     net = H.new_net()
-    dev = SimDevice(net, version=version, token=TOKEN, key=KEY, device_id=0xC09)
+    dev = SimDevice(net, version=version, token=TOKEN, key=KEY, device_id=0 if ep.endswith("id0") else 0xC09)
     dev.nonce_source = lambda: NONCE
     cur = {"bytes": None, "hs": None, "unsolicited": None, "then": None}
 
@@ -151,6 +155,8 @@ def run_case(ctx, case):
         cur.update(bytes=None, hs=None, unsolicited=None, then=None)
         ac = AC(ip=dev.host, port=dev.port, device_id=dev.device_id)
         lan = ac._lan
+        if it.get("lifetime"):
+            ac.set_max_connection_lifetime(it["lifetime"])
         if phase == "v3data":
             await ac.authenticate(TOKEN, KEY)
             cur["bytes"] = adv
@@ -169,6 +175,18 @@ def run_case(ctx, case):
         else:
             cur["hs"] = adv
         cur["then"] = it.get("then")
+        if ep == "lan.send-twice-id0":
+            # a client that does not know the device's id (0, the command line default): the peer's bytes, then a normal exchange
+            try:
+                await lan.send(acframe.state_query())
+            except (ProtocolError, TimeoutError):
+                pass
+            cur.update(bytes=None, then=None)
+            return await lan.send(acframe.state_query(2))
+        if ep == "lan.send-retries1":
+            return await lan.send(acframe.state_query(), retries=1)
+        if ep.startswith("lan.authenticate-retries"):
+            return await lan.authenticate(TOKEN, KEY, retries=int(ep[-1]))
         if ep in ("lan.send", "send-implicit-auth"):
             return await lan.send(acframe.state_query())
         if ep in ("refresh", "refresh-implicit-auth"):
